@@ -267,7 +267,8 @@ fn edge(r: &mut Rng, rare_unicode: bool) -> &'static str {
     if rare_unicode && r.chance(1, 25) { *r.pick(&["\u{a0}", "\u{2003}", "\u{3000}", "\u{85}", "\u{1680}", "\u{2028}", "\u{205f}", "\u{feff}", "\u{200b}", "\u{0b}", "\u{0c}"]) }
     else { *r.pick(&["", "", "", "", " ", "\t", "  "]) }
 }
-const UA_ITEMS: &[&str] = &["Linux", "Windows", "iOS=[iPad]", "iOS=[iPhone]", "Mac OS X", "FreeBSD", "Solaris=[SunOS]", "a=b", "a = b", "x1", "", "a=[b", "a=[]", "-", "Win 7"];
+const UA_ITEMS: &[&str] = &["Linux", "Windows", "iOS=[iPad]", "iOS=[iPhone]", "Mac OS X", "FreeBSD", "Solaris=[SunOS]", "a=b", "a = b", "x1", "", "a=[b", "a=[]", "-", "Win 7",
+    "a=[b]c", "a=[b=c]", "=[b]", "x.y", "(a)!?", "a_b/c", "a=[b c]", "a[b", "a]", "a=[b]=[c]", " a", "a ", "é", "a;b", "a:b"];
 fn db_text(r: &mut Rng, valid_bias: bool) -> String {
     let mut lines: Vec<String> = Vec::new();
     let mut sec = Sec::None;
